@@ -18,6 +18,7 @@
 -/
 import Proofs.Generate
 import Proofs.GenerateTerm
+import Proofs.Validate
 
 open Generate GenProofs
 
@@ -30,6 +31,18 @@ theorem c20_exact_count (fuel : Nat) (env : Env) (ρ : Rand) (s : Schema) (n i :
     (h : genMany fuel env ρ s n i = .ok (xs, i')) : xs.length = n :=
   genMany_length fuel env ρ s n i xs i' h
 
+/-- **C20 (accepted by validate).** whatever the oracle returns, `validate` (non-raising, default options) does not
+    answer `False` for a generated datum: whenever it answers, it answers `True` (C10's theorem composed with the
+    one above; plain schemas) -/
+theorem c20_generated_validates (env : Env) (ρ : Rand) (henv : env.fieldsOk = true) (hpl : env.plain = true) (fuel : Nat)
+    (s : Schema) (i : Nat) (v : Val) (i' : Nat) (hs : s.fieldsOk = true) (hp : s.plain = true) (field : String) (b : Bool)
+    (h : genData fuel env ρ s i = .ok (v, i'))
+    (hv : Validate.validate fuel env { strict := false, disableTuple := false } false field s (some v) = .ok b) : b = true := by
+  have h1 := c20_generated_conforms env ρ henv fuel s i v i' hs h
+  have h2 := ValidateProofs.validate_eq_conforms env { strict := false, disableTuple := false } hpl fuel field s (some v) b hp hv
+  simp only at h2
+  rw [← h2]; exact h1
+
 /-! non-vacuity: a record with a union, an enum and an array under a concrete oracle -/
 def c20schema : Schema := .record "R" [
   .mk "u" (.union [.prim .null false none, .prim .long false none]) none [],
@@ -40,6 +53,12 @@ example : c20schema.fieldsOk = true ∧ Env.fieldsOk [] = true := by decide
 example : (match genData 5 [] (fun k => 7 * k + 3) c20schema 0 with
     | .ok (.dict [(.str "u", _), (.str "e", .str _), (.str "xs", .list xs)], _) => xs.length == 10
     | _ => false) = true := by decide +kernel
+
+/-- non-vacuity of `c20_generated_validates`: the schema is plain and `validate` does answer (`True`) on the generated datum -/
+example : c20schema.plain = true ∧ Env.plain [] = true := by decide
+#guard (match genData 5 [] (fun k => 7 * k + 3) c20schema 0 with
+    | .ok (v, _) => (match Validate.validate 5 [] {} false "" c20schema (some v) with | .ok true => true | _ => false)
+    | _ => false)
 
 /-! ### termination -/
 open GenTerm
